@@ -105,6 +105,25 @@ func (vm *VM) errIndexOutOfRange() runtimeError {
 	return runtimeError(s)
 }
 
+// errUnhashable returns the runtime error for a panic raised by hashing an
+// unhashable map key. The spelling of the message of the Go runtime depends on
+// the map implementation and on the key type.
+func errUnhashable(msg any) (runtimeError, bool) {
+	err, ok := msg.(runtime.Error)
+	if !ok {
+		return "", false
+	}
+	const prefix = "runtime error: hash of unhashable type "
+	s := err.Error()
+	if strings.HasPrefix(s, prefix) {
+		return runtimeError(s), true
+	}
+	if t, ok := strings.CutPrefix(s, "hash of unhashable type: "); ok {
+		return runtimeError(prefix + t), true
+	}
+	return "", false
+}
+
 // newPanic returns a new *PanicError with the given error message.
 func (vm *VM) newPanic(msg any) *PanicError {
 	return &PanicError{
@@ -179,11 +198,9 @@ func (vm *VM) convertPanic(msg any) error {
 		if err, ok := msg.(string); ok && strings.HasPrefix(err, "reflect: cannot convert slice with length") {
 			return vm.newPanic(runtimeError("runtime error:" + err[len("reflect:"):]))
 		}
-	case OpDelete:
-		if err, ok := msg.(runtime.Error); ok {
-			if s := err.Error(); strings.HasPrefix(s, "hash of unhashable type: ") {
-				return vm.newPanic(runtimeError(s))
-			}
+	case OpDelete, OpMapIndex, -OpMapIndex, OpMapIndexAny, -OpMapIndexAny:
+		if err, ok := errUnhashable(msg); ok {
+			return vm.newPanic(err)
 		}
 	case OpDivInt, OpDiv, OpRemInt, OpRem:
 		if err, ok := msg.(runtime.Error); ok {
@@ -235,11 +252,12 @@ func (vm *VM) convertPanic(msg any) error {
 		}
 	case OpSetMap, -OpSetMap:
 		if err, ok := msg.(runtime.Error); ok {
-			s := err.Error()
-			if s == "assignment to entry in nil map" ||
-				strings.HasPrefix(s, "runtime error: hash of unhashable type ") {
+			if s := err.Error(); s == "assignment to entry in nil map" {
 				return vm.newPanic(runtimeError(s))
 			}
+		}
+		if err, ok := errUnhashable(msg); ok {
+			return vm.newPanic(err)
 		}
 	case OpSlice, OpStringSlice:
 		// https://github.com/open2b/scriggo/issues/321
